@@ -77,20 +77,24 @@ def leapfrog(q, p, eps, L, minv, grad, eta=0.0):
     return {"q": q, "p": pk, "traj": traj, "scale": scale, "finite": finite}
 
 
-def amplification(q, p, eps, L, minv, grad, base=None, eta=1e-9):
-    """round-off probe: max over the trajectory of |perturbed - unperturbed| / (eta * scale).
-    inf when either run is not finite."""
+def probe(q, p, eps, L, minv, grad, base=None, eta=1e-9):
+    """round-off probe: (amplification, perturbed run). amplification = max over the trajectory of
+    |perturbed - unperturbed| / (eta * scale); inf when either run is not finite."""
     if base is None:
         base = leapfrog(q, p, eps, L, minv, grad)
     if not base["finite"]:
-        return float("inf")
+        return float("inf"), None
     pert = leapfrog(q, p, eps, L, minv, grad, eta=eta)
     if not pert["finite"] or len(pert["traj"]) != len(base["traj"]):
-        return float("inf")
+        return float("inf"), pert
     dev = 0.0
     for (qa, pa), (qb, pb) in zip(base["traj"], pert["traj"]):
         dev = max(dev, float(np.max(np.abs(qa - qb))), float(np.max(np.abs(pa - pb))))
-    return dev / (eta * base["scale"])
+    return dev / (eta * base["scale"]), pert
+
+
+def amplification(q, p, eps, L, minv, grad, base=None, eta=1e-9):
+    return probe(q, p, eps, L, minv, grad, base=base, eta=eta)[0]
 
 
 # ----------------------------------------------------------------------------- toy targets
